@@ -4,6 +4,16 @@
    theorem below holds FOR EVERY value of the draws (all seeds), every batch shape [B>=1, F>=1, D], every target,
    every beta (beta only shapes the distribution of `rates`) and every mutual-information vector.
 
+   IEEE level (section 7 below, Lib/FloatSelect.v, Flocq): the id model treats "mask * x + ~mask * x[perm]" as a
+   selection.  Theorems mixup_entry_ieee_exact / mixup_entry_never_reads_other lift the clause "each entry is taken
+   UNCHANGED from the row itself or its partner" to IEEE binary32 (round to nearest even) for all FINITE entries:
+   the formula returns the selected entry bit for bit; the one thing not preserved is the SIGN OF A ZERO entry
+   (-0.0 + 0.0 = +0.0; the harness identifies +-0).  inf / nan entries are outside (0 * inf = nan).
+   rewritten_select_refuted: the "one multiplication less" form x + ~mask * (x[perm] - x) is NOT a selection
+   (binary32 witness own = 1e8, partner = 1.0 gives +0.0).  These three theorems -- and only these -- depend on the
+   standard library's real-number / classical axioms that Flocq imports (named in the trusted base); every other
+   theorem of this file is closed under the global context.
+
    Reading aid:  ent t i j k = Some v   entry (i,j,k) of a rank-3 tensor exists and is v
                  perm dr                  shuffled_idx: row i's partner is  nth_error (perm dr) i
                  draw_mask (rates dr) (unif dr)   the hard mask  rand < shuffle_rates   ([B,F] or [B,D])
@@ -197,3 +207,50 @@ Example zero_sum_mi_gives_nan_target :
   mixup_agrees ex_x (YIdx [0%nat; 2%nat]) 3 MixFeature (Some [0; 0]) ex_dr 0
     [[[1;2];[7;8]]; [[1;2];[7;8]]]%Z YMNaN = true.
 Proof. vm_compute. reflexivity. Qed.
+
+(* ---------------------------------------------------------------------------------------------------------
+   7. IEEE binary32 level of clause 1 (Lib/FloatSelect.v).  mask_select b x y is what torch computes for ONE entry of
+      mixup_mask * x + ~mixup_mask * x[shuffled_idx]: own entry x, partner entry y, mask bit b (true = keep own). *)
+Close Scope Q_scope.
+From Flocq Require Import Core BinarySingleNaN.
+From PF Require Import Lib.FloatSelect.
+
+(* for finite own / partner entries the result IS the selected entry: identical as a float when it is non-zero, a zero
+   (of either sign) when it is a zero, always the same real value, always finite *)
+Theorem mixup_entry_ieee_exact :
+  forall (b : bool) (x y : b32),
+    is_finite x = true -> is_finite y = true ->
+    let w := if b then x else y in
+    let z := mask_select prec32 emax32 Hprec32 Hemax32 b x y in
+    (is_finite_strict w = true -> z = w) /\
+    (forall s, w = B754_zero s -> exists u, z = B754_zero u) /\
+    B2R z = B2R w /\ is_finite z = true.
+Proof. exact (mask_select_exact prec32 emax32 Hprec32 Hemax32). Qed.
+Print Assumptions mixup_entry_ieee_exact.
+
+(* the entry that is NOT selected (the partner's when the mask keeps the own one, and vice versa) has no influence *)
+Theorem mixup_entry_never_reads_other :
+  forall (b : bool) (x y x' y' : b32),
+    is_finite x = true -> is_finite y = true -> is_finite x' = true -> is_finite y' = true ->
+    (if b then x = x' else y = y') ->
+    B2R (mask_select prec32 emax32 Hprec32 Hemax32 b x y) = B2R (mask_select prec32 emax32 Hprec32 Hemax32 b x' y').
+Proof. exact (mask_select_ignores_other prec32 emax32 Hprec32 Hemax32). Qed.
+Print Assumptions mixup_entry_never_reads_other.
+
+(* the rewritten formula x + ~mask * (x[perm] - x) is refuted: own = 1e8, partner = 1.0, mask bit false gives +0.0
+   where the library's formula gives the partner entry 1.0 *)
+Theorem rewritten_select_is_refuted :
+  exists x y : b32,
+    is_finite x = true /\ is_finite y = true /\
+    B2SF (rewritten_select prec32 emax32 Hprec32 Hemax32 false x y) = SpecFloat.S754_zero false /\
+    B2SF (mask_select prec32 emax32 Hprec32 Hemax32 false x y) = B2SF y.
+Proof. exact rewritten_select_refuted. Qed.
+Print Assumptions rewritten_select_is_refuted.
+
+(* the executable form used by the correspondence: 0.1f (13421773 * 2^-27) kept against 1e8, and a subnormal taken
+   from the partner *)
+Example select32_example :
+  select32 true (false, 13421773, -27)%Z (false, 12500000, 3)%Z = Some (false, 13421773, -27)%Z /\
+  select32 false (true, 12500000, 3)%Z (false, 1, -149)%Z = Some (false, 1, -149)%Z /\
+  select32 true (true, 0, 0)%Z (false, 8388608, -23)%Z = Some (false, 0, 0)%Z.
+Proof. vm_compute. repeat split; reflexivity. Qed.
